@@ -28,7 +28,9 @@ from ipaddress import IPv4Address
 
 RULE = ("1..4 self-consistent simulated devices x 1..5 services of real pyatv service types (single services may "
         "lack an identifier next to services that have one; _airport/_sleep-proxy services mixed in; dedicated "
-        "cases with one datagram per service so that every parser-table order occurs), rendered to "
+        "cases with one datagram per service so that every parser-table order occurs; TXT values that make a "
+        "device_info extractor or service_info raise - comma in waMA, two-word flags, non-hex features, empty "
+        "and very long values - on some services of some devices, next to ordinary devices), rendered to "
         "response datagrams; all permutations of up to 5 (quick) / 6 (thorough) datagrams, sampled beyond, "
         "each with random duplication; multicast and unicast scanner; non-trivial = >=2 datagrams, a "
         "configuration is returned and the delivery order differs from the reference order or has a "
@@ -512,11 +514,111 @@ def parse_answer(ans):
 # --------------------------------------------------------------------------------------
 # generation
 # --------------------------------------------------------------------------------------
-MODELS = ["AppleTV6,2", "AppleTV5,3", "AudioAccessory5,1", "NoSuchModel1,1"]
+MODELS = ["AppleTV6,2", "AppleTV5,3", "AudioAccessory5,1", "AirPort10,115", "NoSuchModel1,1"]
 INTERNAL = ["J105aAP", "J42dAP", "K66AP", "X999AP"]
 
 
-def gen_device(rng, idx, allow_noid=True, mixed=None, nsvc=None):
+def set_prop(props, key, value):
+    out = [(k, v) for k, v in props if k.lower() != key.lower()]
+    return out + [(key, value)]
+
+
+def make_hostile(rng, dev, howmany=None):
+    """Real-world shaped TXT values that a device_info extractor or a protocol's service_info cannot
+    interpret (they raise on them).  The device stays self-consistent: every datagram carries the same
+    values.  Returns the list of oddities applied."""
+    a = dev["addr"]
+    options = []
+    for s in dev["services"]:
+        t = s["type"]
+        if t == T_AIRPLAY:
+            options += [(s, "flags", "0x404,0x0"), (s, "flags", ""), (s, "features", "0xNOTHEX"), (s, "sf", "0x4,junk")]
+        elif t == T_RAOP:
+            options += [(s, "sf", "0x4,0x0"), (s, "ft", "zz"), (s, "am", "")]
+        elif t == T_COMPANION:
+            options += [(s, "rpFl", "zz"), (s, "rpFl", ""), (s, "rpFl", "0x36782,0x0")]
+        elif t == T_AIRPORT:
+            options += [(s, "waMA", "AA-BB-CC-00-00-%02X,raMA=AA-BB-CC-00-01-%02X,raNm=Home, sweet home,syVs=7.8.1" % (a, a)),
+                        (s, "waMA", "AA-BB-CC-00-00-%02X,junk" % a)]
+        elif t == T_MRP:
+            options += [(s, "SystemBuildVersion", ""), (s, "AllowPairing", "")]
+        options.append((s, "note%d" % t, "x" * 200))
+    applied = []
+    for s, k, v in rng.sample(options, min(len(options), howmany or rng.randint(1, 3))):
+        s["props"] = set_prop(s["props"], k, v)
+        applied.append((s["type"], k, v[:20]))
+    return applied
+
+
+def gen_airport_express(rng, idx, bad=True):
+    """AirPort Express 2: _airplay + _raop + _airport; the model is known from `model` / `am` only."""
+    a = idx + 1
+    name = "Express%d" % a
+    mac = "AA:BB:CC:00:00:%02X" % a
+    wama = "AA-BB-CC-00-00-%02X,raMA=AA-BB-CC-00-01-%02X,raNm=%s,syVs=7.8.1" % (a, a, "My, Net" if bad else "MyNet")
+    services = [
+        {"type": T_AIRPLAY, "inst": name, "port": 7000, "props": [("deviceid", mac), ("model", "AirPort10,115"),
+                                                                 ("features", "0x445F8A00,0x1C340")]},
+        {"type": T_RAOP, "inst": "AABBCC0000%02X@%s" % (a, name), "port": 7000, "props": [("am", "AirPort10,115"), ("tp", "UDP")]},
+        {"type": T_AIRPORT, "inst": name, "port": 5009, "props": [("waMA", wama)]},
+    ]
+    rng.shuffle(services)
+    return {"addr": a, "host": a, "services": services, "name": name, "expect_absent": False, "info": None,
+            "linklocal": rng.chance(0.3), "sleeping": False, "ttl": rng.choice([10, 120, 4500])}
+
+
+def gen_case_hostile(rng, mode, i):
+    """Self-consistent devices of which some carry TXT values an extractor / service_info chokes on, next
+    to ordinary devices; few datagrams per device so that all arrival orders (of services within a device
+    and of devices) are enumerated."""
+    from pyatv.core import mdns
+    from pyatv.support import dns
+    devs = []
+    if i % 2 == 0:
+        devs.append(gen_airport_express(rng, 0, bad=True))
+    else:
+        d = gen_device(rng, 0, allow_noid=False, mixed=False, nsvc=rng.randint(2, 3), hostile=False)
+        d["sleeping"] = False
+        make_hostile(rng, d)
+        devs.append(d)
+    for k in range(1 + (i // 2) % 2):
+        d = gen_device(rng, len(devs), allow_noid=False, mixed=False, nsvc=rng.randint(1, 2), hostile=False)
+        d["sleeping"] = False
+        if rng.chance(0.3):
+            make_hostile(rng, d, 1)
+        devs.append(d)
+    rng.shuffle(devs)
+    dgrams = []
+    if mode == "m":
+        for di, d in enumerate(devs):
+            per_service = d is devs[0] or len(devs) == 2
+            groups = [[s] for s in d["services"]] if per_service else [d["services"]]
+            for g in groups:
+                recs = []
+                for s in g:
+                    recs += [r for r in svc_records(d, s) if r not in recs]
+                dgrams.append({"src": d["addr"], "tag": len(dgrams), "recs": recs})
+        hosts, protoset = [], None
+    else:
+        protoset = None
+        nq = len(mdns.create_service_queries(make_scanner(protoset).services, dns.QueryType.PTR))
+        devs = devs[:2]
+        for d in devs:
+            buckets = [[] for _ in range(nq)]
+            where = list(range(nq))
+            rng.shuffle(where)
+            for k, s in enumerate(d["services"]):
+                b = buckets[where[k % nq]]
+                b += [r for r in svc_records(d, s) if r not in b]
+            for q in range(nq):
+                dgrams.append({"src": d["addr"], "tag": q, "recs": buckets[q]})
+        hosts = [d["addr"] for d in devs]
+        rng.shuffle(hosts)
+    return {"mode": mode, "protoset": protoset, "hosts": hosts, "enc": rng.choice(["r", "c"]), "dgrams": dgrams,
+            "absent": [d["addr"] for d in devs if d["expect_absent"]], "consistent": True}
+
+
+def gen_device(rng, idx, allow_noid=True, mixed=None, nsvc=None, hostile=None):
     """One self-consistent device: unique address/host/names; services of one pyatv protocol agree on
     port, identifier and shared property keys; all services yield the same name; one model.
     Single services may lack a unique identifier while others of the same device have one (Companion
@@ -595,6 +697,10 @@ def gen_device(rng, idx, allow_noid=True, mixed=None, nsvc=None):
            "info": rng.choice(INTERNAL) if rng.chance(0.5) else None,
            "linklocal": rng.chance(0.3), "sleeping": rng.chance(0.2) and not mixed,
            "ttl": rng.choice([10, 120, 4500])}
+    if hostile is None:
+        hostile = rng.chance(0.2)
+    if hostile:
+        make_hostile(rng, dev)
     return dev
 
 
@@ -738,7 +844,7 @@ def gen_case_inconsistent(rng, mode):
         if r[0] == "S" and what < 3:
             r[3] += 1                                   # second SRV with another port
         elif r[0] == "T":
-            r[3] = r[3][:-1] + [["late", "x%d" % rng.randint(0, 1)]] if what % 2 else [[k, v if k.lower() in ("rpfl", "features", "flags") else v + "!"] for k, v in r[3]]
+            r[3] = r[3][:-1] + [["late", "x%d" % rng.randint(0, 1)]] if what % 2 else [[k, v + "!"] for k, v in r[3]]
         elif r[0] == "A":
             r[3] = r[3] + 20                            # second routable address
         elif r[0] == "P" and what == 0:
@@ -949,6 +1055,12 @@ def run(ctx, only=None):
         desc = gen_case_mixed(r, mode, 2 + i % 4 if mode == "m" else 2 + i % 3)
         n = len(desc["dgrams"])
         evaluate(ctx, desc, orders_for(r, n, full, samples * 2, 1), "mixed-identifiers")
+    # 2c. self-consistent devices whose TXT values make an extractor / service_info raise, among ordinary ones
+    for i in range(ctx.scale(6, 24)):
+        r = rng.fork("hostile", i)
+        desc = gen_case_hostile(r, "mmu"[i % 3], i)
+        n = len(desc["dgrams"])
+        evaluate(ctx, desc, orders_for(r, n, full, samples * 2, 1), "hostile-values")
     # 3. contradictory data: correspondence only
     for i in range(ctx.scale(10, 40)):
         r = rng.fork("x", i)
